@@ -3,6 +3,7 @@ import Kdf.Lemmas.DerivedPage
 import Kdf.Lemmas.DerivedReg
 import Kdf.Lemmas.DerivedXen
 import Kdf.Lemmas.DerivedVmci
+import Kdf.Lemmas.DerivedTyped
 /-!
 # C14 — derived views of dump metadata stay coherent with their source
 
@@ -11,7 +12,7 @@ correspondence stream).  Helper lemmas: `Kdf.Lemmas.Derived{Page,Reg,Vmci}`.
 -/
 namespace Kdf.Props.C14
 open Kdf.Model.Derived
-open Kdf.Lemmas.DerivedPage Kdf.Lemmas.DerivedReg Kdf.Lemmas.DerivedVmci Kdf.Lemmas.DerivedXen
+open Kdf.Lemmas.DerivedPage Kdf.Lemmas.DerivedReg Kdf.Lemmas.DerivedVmci Kdf.Lemmas.DerivedXen Kdf.Lemmas.DerivedTyped
 
 /-! ## page size = 2 ^ page shift -/
 
@@ -410,10 +411,59 @@ theorem vmci_dot_refused (c : Ctx) (r : Row) (hk : leadingDot r.key = true) :
   · simp only [vline, hk]; split <;> rfl
   · simp only [vsym, hk]; split <;> rfl
 
-/- NOT PROVED (observed by the correspondence stream and the Python oracle only):
-   `typed_eq_parse` — every SYMBOL/NUMBER/OFFSET/SIZE/LENGTH value is `strtoull` of the
-   last row `TYPE(sym)=…`; the completeness half is false for the code as it is
-   (FINDING vmci-stale-typed: a later unparsable value keeps the earlier number). -/
+/-- The typed views agree with the LAST row of their key: for an accepted text and every
+well-formed `TYPE(sym)` key (`TYPE` one of SYMBOL, NUMBER, OFFSET, SIZE, LENGTH; `typedKey`),
+the attribute `linux.vmcoreinfo.TYPE.sym` shows exactly what the value of the last row with
+that key parses to (`strtoull`, whole string) — NO value when that row does not parse (an
+earlier row's value is cleared: the repaired `parsed_line_hook`), and no leaf at all when the
+text has no such row.  (Before the repair the completeness half was false: finding
+vmci-stale-typed.) -/
+theorem vmci_typed_last_row (c : Ctx) (b : Bytes) (c' : Ctx) (h : setRaw c b = .done .ok c')
+    (key : Bytes) (isSym : Bool) (tn : String) (p : Bytes) (hk : typedKey key = some (isSym, tn, p)) :
+    shownAt c' p = (lastVal (rowsOf b) key).bind (parseTyped isSym) ∧
+    (lastVal (rowsOf b) key = none → c'.typed.find p = none) :=
+  setRaw_typed c b c' h key isSym tn p hk
+
+/-- … and `kdump_vmcoreinfo_symbol(sym)` answers accordingly: a value it returns is the parse of
+the last `SYMBOL(sym)` row, and it has no data when that row does not parse or does not exist. -/
+theorem vmci_symbol_view (c : Ctx) (b : Bytes) (c' : Ctx) (h : setRaw c b = .done .ok c')
+    (key sym : Bytes) (tn : String) (hk : typedKey key = some (true, tn, bytesOf "SYMBOL." ++ sym)) :
+    (∀ n, vsym c' sym = (.ok, n) → (lastVal (rowsOf b) key).bind (parseTyped true) = some (true, n)) ∧
+    ((lastVal (rowsOf b) key).bind (parseTyped true) = none → (vsym c' sym).1 = .nodata) := by
+  obtain ⟨h1, _⟩ := setRaw_typed c b c' h key true tn _ hk
+  unfold shownAt at h1
+  refine ⟨fun n hn => ?_, fun hnone => ?_⟩
+  · rw [← h1]
+    unfold vsym at hn
+    split at hn
+    · cases hn
+    · split at hn
+      · cases hn
+      · split at hn
+        · rename_i t ht
+          split at hn
+          · rename_i hc
+            cases hn
+            rw [ht]
+            simp only [Bool.and_eq_true] at hc
+            simp [Typed.shown, hc.1, hc.2]
+          · cases hn
+        · cases hn
+  · rw [hnone] at h1
+    unfold vsym
+    split
+    · rfl
+    · split
+      · rfl
+      · split
+        · rename_i t ht
+          rw [ht] at h1
+          split
+          · rename_i hc
+            simp only [Bool.and_eq_true] at hc
+            simp [Typed.shown, hc.2] at h1
+          · rfl
+        · rfl
 
 -- non-vacuity (texts as byte lists): "A=1\nB\n\nC=x=y"; "A=1\nAB=2\nA=3\n" (repeated key, plain
 -- prefix key); "SYMBOL(s)=ff\n"; the dotted-prefix pairs "A=1\nA.B=2\n" and "A.B=2\nA=1\n"
@@ -430,6 +480,21 @@ example : (match setRaw {} [65,46,66,61,50,10,65,61,49,10] with | .done .invalid
 -- "A=1\n.A=2\n": refused at the dotted row, line "A" keeps 1, ".A" is no line
 example : (match setRaw {} [65,61,49,10,46,65,61,50,10] with
     | .done .system c => vline c [65] == (.ok, [49]) && vline c [46,65] == (.nodata, [])
+    | _ => false) = true := by decide
+
+-- "NUMBER(x)=1\nNUMBER(x)=zz\n": the second row does not parse -- the leaf NUMBER.x stays but shows nothing;
+-- "SYMBOL(s)=10\nSYMBOL(s)=zz\n": kdump_vmcoreinfo_symbol("s") has no data; a third row "NUMBER(x)=7" shows again
+example : typedKey [78,85,77,66,69,82,40,120,41] = some (false, "NUMBER", [78,85,77,66,69,82,46,120]) := by decide
+example : (match setRaw {} [78,85,77,66,69,82,40,120,41,61,49,10, 78,85,77,66,69,82,40,120,41,61,122,122,10] with
+    | .done .ok c => (c.typed.find [78,85,77,66,69,82,46,120]).map (·.set) == some false &&
+                     shownAt c [78,85,77,66,69,82,46,120] == none
+    | _ => false) = true := by decide
+example : (match setRaw {} [83,89,77,66,79,76,40,115,41,61,49,48,10, 83,89,77,66,79,76,40,115,41,61,122,122,10] with
+    | .done .ok c => vsym c [115] == (.nodata, 0)
+    | _ => false) = true := by decide
+example : (match setRaw {} [78,85,77,66,69,82,40,120,41,61,49,10, 78,85,77,66,69,82,40,120,41,61,122,122,10,
+                            78,85,77,66,69,82,40,120,41,61,55,10] with
+    | .done .ok c => shownAt c [78,85,77,66,69,82,46,120] == some (false, 7)
     | _ => false) = true := by decide
 
 end Kdf.Props.C14
